@@ -18,42 +18,36 @@ def decSorted {V : Type} : (l : AList V) → Decidable (AList.Sorted l)
 
 instance {V : Type} (l : AList V) : Decidable (AList.Sorted l) := decSorted l
 
-/-- what SCAN is expected to report about one index record: the name matches, the record has not
-    expired, and its cached type is the requested one (TYPE given) -/
-def Eligible (now : Int) (pat : Bytes) (typ : Nat) (e : Bytes × Meta) : Bool :=
-  Glob.matched pat e.1 && !e.2.expired now && (typ == 0 || e.2.vtype == typ)
+/-- what SCAN is expected to report about one index record of store `s`: the name matches, the
+    record has not expired, and (TYPE given) its value has the requested type — the cached type,
+    or for a record whose value was never loaded the type of the value in the backend (`etype`) -/
+def Eligible (s : MState) (now : Int) (pat : Bytes) (typ : Nat) (e : Bytes × Meta) : Bool :=
+  Glob.matched pat e.1 && !e.2.expired now && (typ == 0 || etype s typ e == typ)
 
 /-- the names a complete SCAN iteration is expected to report, in index order -/
-def eligibleNames (now : Int) (pat : Bytes) (typ : Nat) (idx : AList Meta) : List Bytes :=
-  (idx.filter (Eligible now pat typ)).map (·.1)
+def eligibleNames (s : MState) (now : Int) (pat : Bytes) (typ : Nat) (idx : AList Meta) : List Bytes :=
+  (idx.filter (Eligible s now pat typ)).map (·.1)
 
-theorem keep_proj (now : Int) (pat : Bytes) (typ : Nat) (e : Bytes × Meta) :
-    keep now pat typ (proj e) = Eligible now pat typ e := by
-  have hexp : vexpired (proj e) now = e.2.expired now := rfl
+theorem keep_proj (s : MState) (now : Int) (pat : Bytes) (typ : Nat) (e : Bytes × Meta) :
+    keep now pat typ (proj s typ e) = Eligible s now pat typ e := by
   simp only [keep, Eligible, proj]
   congr 1
   by_cases h1 : typ = 0
   · simp [h1]
-  · by_cases h2 : e.2.vtype = typ
+  · by_cases h2 : etype s typ e = typ
     · simp [h2]
     · simp [h1, h2]
 
-theorem kept_viewOf (now : Int) (pat : Bytes) (typ : Nat) (idx : AList Meta) :
-    kept now pat typ (viewOf idx) = eligibleNames now pat typ idx := by
+theorem kept_viewOf (s : MState) (now : Int) (pat : Bytes) (typ : Nat) (idx : AList Meta) :
+    kept now pat typ (viewOf s typ idx) = eligibleNames s now pat typ idx := by
   unfold kept eligibleNames viewOf
   rw [List.filter_map, List.map_map]
-  have : (keep now pat typ ∘ proj) = Eligible now pat typ := by
-    funext e; exact keep_proj now pat typ e
+  have : (keep now pat typ ∘ proj s typ) = Eligible s now pat typ := by
+    funext e; exact keep_proj s now pat typ e
   rw [this]
   rfl
 
-theorem viewOf_take (idx : AList Meta) (k : Nat) : (viewOf idx).take k = viewOf (idx.take k) := by
-  simp [viewOf, List.map_take]
-
-theorem viewOf_drop (idx : AList Meta) (k : Nat) : (viewOf idx).drop k = viewOf (idx.drop k) := by
-  simp [viewOf, List.map_drop]
-
-theorem view_length (s : MState) : (view s).length = s.index.length := by simp [view, viewOf]
+theorem view_length (s : MState) (typ : Nat) : (view s typ).length = s.index.length := by simp [view, viewOf]
 
 /-- the state invariant used for whole iterations: the index is a proper btree -/
 def Inv (s : MState) : Prop := AList.Sorted s.index
@@ -63,40 +57,39 @@ theorem scanStep_inv (now : Int) (pat : Bytes) (count : Int) (typ : Nat) (s : MS
   (scan_frame s h now c pat count typ).sorted h
 
 theorem scanStep_view (now : Int) (pat : Bytes) (count : Int) (typ : Nat) (s : MState) (c : Int) (h : Inv s) :
-    view (scanStep now pat count typ s c).1 = view s :=
-  (scan_frame s h now c pat count typ).view
+    view (scanStep now pat count typ s c).1 typ = view s typ :=
+  (scan_frame s h now c pat count typ).view_eq
 
 /-- a whole iteration of SCAN commands on a store = the iteration of `scanPure` on its view -/
 theorem iterate_scan_eq (now : Int) (pat : Bytes) (count : Int) (typ : Nat) (s : MState) (hs : AList.Sorted s.index)
     (fuel : Nat) (c : Int) :
-    iterateFrom (scanStep now pat count typ) fuel s c = iterateFrom (pstep (view s) now pat typ count) fuel () c :=
-  iterateFrom_view_inv (scanStep now pat count typ) view (fun v c => scanPure v now c pat count typ) Inv
+    iterateFrom (scanStep now pat count typ) fuel s c = iterateFrom (pstep (view s typ) now pat typ count) fuel () c :=
+  iterateFrom_view_inv (scanStep now pat count typ) (fun s => view s typ) (fun v c => scanPure v now c pat count typ) Inv
     (scanStep_inv now pat count typ) (scanStep_view now pat count typ) (scanStep_out now pat count typ) fuel s c hs
 
 /-! ## count > 0 -/
 
-/-- number of SCAN calls of a full iteration over `n` records with COUNT k > 0 -/
-def callsScan (n k : Nat) : Nat :=
-  if n = 0 then 1 else (n + k - 1) / k + (if Missed n k 0 then 0 else 1)
+/-- number of SCAN calls of a full iteration over `n` records with COUNT k > 0: ⌈n / k⌉, and one
+    call on an empty index -/
+def callsScan (n k : Nat) : Nat := if n = 0 then 1 else (n + k - 1) / k
 
 theorem scan_full_pos (s : MState) (hs : AList.Sorted s.index) (hn : (s.index.length : Int) < I63)
     (now : Int) (pat : Bytes) (typ : Nat) (k : Nat) (hk0 : 0 < k) (hk : (k : Int) < I63) :
     FullIteration (fun fuel => iterateS (scanStep now pat (k : Int) typ) fuel s)
-      (callsScan s.index.length k)
-      (eligibleNames now pat typ (if Missed s.index.length k 0 then s.index.dropLast else s.index)) := by
+      (callsScan s.index.length k) (eligibleNames s now pat typ s.index) := by
   intro fuel hfuel
   unfold iterateS terminated calls visited
   simp only
   rw [iterate_scan_eq now pat k typ s hs]
+  have hlen := view_length s typ
   by_cases hn0 : s.index.length = 0
   · have hnil : s.index = [] := List.eq_nil_of_length_eq_zero hn0
     simp only [callsScan, hn0, if_true] at hfuel ⊢
     obtain ⟨g, rfl⟩ : ∃ g, fuel = g + 1 := ⟨fuel - 1, by omega⟩
     rw [iterateFrom_last _ g () 0 () [] (by
-      simp only [pstep]; rw [scanPure_end _ _ _ _ _ _ (by rw [view_length]; omega)])]
-    simp [hnil, eligibleNames, Missed]
-  · have hlen := view_length s
-    have h := iter_scan (view s) now pat typ (by rw [hlen]; exact hn) k hk0 hk fuel 0 0 (Or.inl ⟨rfl, rfl⟩)
+      simp only [pstep]; rw [scanPure_empty _ _ _ _ _ _ (by rw [hlen]; exact hn0)])]
+    simp [hnil, eligibleNames]
+  · have h := iter_scan (view s typ) now pat typ (by rw [hlen]; exact hn) k hk0 hk fuel 0 0 (Or.inl ⟨rfl, rfl⟩)
       (by rw [hlen]; omega) (by
         simp only [callsScan, hn0, if_false] at hfuel
         rw [hlen]; simpa using hfuel)
@@ -105,14 +98,10 @@ theorem scan_full_pos (s : MState) (hs : AList.Sorted s.index) (hn : (s.index.le
     refine ⟨h1, ?_, ?_⟩
     · rw [h3]; simp [callsScan, hn0]
     · rw [h2]
-      simp only [List.drop_zero, Nat.sub_zero]
-      by_cases hm : Missed s.index.length k 0
-      · simp only [hm, if_true]
-        rw [view, viewOf_take, kept_viewOf, List.dropLast_eq_take]
-      · simp only [hm, if_false]
-        rw [List.take_of_length_le (by rw [hlen]; omega), view, kept_viewOf]
+      simp only [List.drop_zero]
+      rw [view, kept_viewOf]
 
-theorem callsScan_le (n k : Nat) (hk0 : 0 < k) : callsScan n k ≤ n + 1 := by
+theorem callsScan_le (n k : Nat) (hk0 : 0 < k) : callsScan n k ≤ max n 1 := by
   unfold callsScan
   split
   · omega
@@ -124,91 +113,86 @@ theorem callsScan_le (n k : Nat) (hk0 : 0 < k) : callsScan n k ≤ n + 1 := by
       have : (k' + 1) * (n' + 1) = k' * n' + k' + n' + 1 := by
         simp [Nat.add_mul, Nat.mul_add]; omega
       omega
-    split <;> omega
+    omega
+
+/-- `callsScan n k` is the ceiling of n / k -/
+theorem callsScan_ceil (n k : Nat) (hk0 : 0 < k) (hn : 0 < n) :
+    n ≤ callsScan n k * k ∧ (callsScan n k - 1) * k < n := by
+  unfold callsScan
+  rw [if_neg (by omega)]
+  have h1 := Nat.div_add_mod (n + k - 1) k
+  have h2 := Nat.mod_lt (n + k - 1) hk0
+  generalize (n + k - 1) / k = q at h1
+  generalize (n + k - 1) % k = r at h1 h2
+  rw [Nat.mul_comm] at h1
+  constructor
+  · omega
+  · obtain ⟨q', rfl⟩ | rfl : (∃ q', q = q' + 1) ∨ q = 0 := by
+      cases q with | zero => right; rfl | succ q' => left; exact ⟨q', rfl⟩
+    · simp only [Nat.add_sub_cancel]
+      rw [Nat.add_mul] at h1
+      omega
+    · simp; omega
 
 /-! ## count < 0 : unlimited -/
 
 theorem scan_full_neg (s : MState) (hs : AList.Sorted s.index) (hn : (s.index.length : Int) < I63)
     (now : Int) (pat : Bytes) (typ : Nat) (count : Int) (hc : -I63 ≤ count) (hneg : count < 0) :
-    FullIteration (fun fuel => iterateS (scanStep now pat count typ) fuel s)
-      (if s.index.length = 0 then 1 else 2) (eligibleNames now pat typ s.index) := by
+    FullIteration (fun fuel => iterateS (scanStep now pat count typ) fuel s) 1 (eligibleNames s now pat typ s.index) := by
   intro fuel hfuel
   unfold iterateS terminated calls visited
   simp only
   rw [iterate_scan_eq now pat count typ s hs]
-  have hlen := view_length s
+  have hlen := view_length s typ
+  obtain ⟨g, rfl⟩ : ∃ g, fuel = g + 1 := ⟨fuel - 1, by omega⟩
   by_cases hn0 : s.index.length = 0
   · have hnil : s.index = [] := List.eq_nil_of_length_eq_zero hn0
-    simp only [hn0, if_true] at hfuel ⊢
-    obtain ⟨g, rfl⟩ : ∃ g, fuel = g + 1 := ⟨fuel - 1, by omega⟩
     rw [iterateFrom_last _ g () 0 () [] (by
-      simp only [pstep]; rw [scanPure_end _ _ _ _ _ _ (by rw [hlen]; omega)])]
+      simp only [pstep]; rw [scanPure_empty _ _ _ _ _ _ (by rw [hlen]; exact hn0)])]
     simp [hnil, eligibleNames]
-  · simp only [hn0, if_false] at hfuel ⊢
-    obtain ⟨g, rfl⟩ : ∃ g, fuel = g + 1 + 1 := ⟨fuel - 2, by omega⟩
-    have hne : ((view s).length : Int) ≠ 0 := by rw [hlen]; omega
-    rw [iterateFrom_next _ (g + 1) () 0 () _ _ (by
+  · rw [iterateFrom_last _ g () 0 () _ (by
       simp only [pstep]
-      rw [scanPure_unl (view s) now pat typ (by rw [hlen]; exact hn) 0 count hc hneg (by omega) (by rw [hlen]; omega)]) hne]
-    rw [iter_final (view s) now pat typ count g]
+      rw [scanPure_unl (view s typ) now pat typ (by rw [hlen]; exact hn) 0 count hc hneg (by omega)
+        (by rw [hlen]; omega) (by rw [hlen]; omega)])]
     simp [startOf, view, kept_viewOf]
 
 /-! ## count = 0 -/
 
-/-- with COUNT 0 nothing is visited and, on an index of two or more records, the cursor stays 1 -/
+/-- with COUNT 0 nothing is visited and, on a non-empty index, the cursor stays 1 -/
 theorem scan_zero_stuck (s : MState) (hs : AList.Sorted s.index) (hn : (s.index.length : Int) < I63)
-    (h2 : 2 ≤ s.index.length) (now : Int) (pat : Bytes) (typ : Nat) :
+    (h1 : 1 ≤ s.index.length) (now : Int) (pat : Bytes) (typ : Nat) :
     ∀ fuel, iterateS (scanStep now pat 0 typ) fuel s = (List.replicate fuel [], false) := by
   intro fuel
   unfold iterateS
   rw [iterate_scan_eq now pat 0 typ s hs]
-  have hlen := view_length s
+  have hlen := view_length s typ
   have key : ∀ (fuel : Nat) (c : Int), (c = 0 ∨ c = 1) →
-      iterateFrom (pstep (view s) now pat typ 0) fuel () c = (List.replicate fuel [], false) := by
+      iterateFrom (pstep (view s typ) now pat typ 0) fuel () c = (List.replicate fuel [], false) := by
     intro fuel
     induction fuel with
     | zero => intro c _; rfl
     | succ f ih =>
       intro c hc
       have hst : startOf c = 0 := by unfold startOf; omega
-      have : scanPure (view s) now c pat ((0 : Nat) : Int) typ = (1, []) := by
-        rw [scanPure_lim (view s) now pat typ (by rw [hlen]; exact hn) c 0 (by unfold I63; omega) (by omega)
-          (by rw [hlen]; omega), hst]
-        simp [kept, hlen]; intro h0; rw [h0] at h2; simp at h2
+      have : scanPure (view s typ) now c pat ((0 : Nat) : Int) typ = (1, []) := by
+        rw [scanPure_lim (view s typ) now pat typ (by rw [hlen]; exact hn) c 0 (by unfold I63; omega) (by omega)
+          (by rw [hlen]; omega) (by rw [hlen]; omega), hst]
+        simp only [kept, Nat.sub_zero, Nat.le_zero_eq, List.length_eq_zero_iff]
+        have hne : ¬ (view s typ = []) := by
+          intro h0; rw [h0] at hlen; simp at hlen; omega
+        simp [hne]
       simp only [Int.natCast_zero] at this
       rw [iterateFrom_next _ f () c () 1 [] (by simp only [pstep, this]) (by omega)]
       rw [ih 1 (Or.inr rfl)]
       simp [List.replicate_succ]
   exact key fuel 0 (Or.inl rfl)
 
-/-- with COUNT 0 and exactly one record: two calls, nothing reported -/
-theorem scan_zero_one (s : MState) (hs : AList.Sorted s.index) (h1 : s.index.length = 1)
-    (now : Int) (pat : Bytes) (typ : Nat) :
-    FullIteration (fun fuel => iterateS (scanStep now pat 0 typ) fuel s) 2 [] := by
-  intro fuel hfuel
-  unfold iterateS terminated calls visited
-  simp only
-  rw [iterate_scan_eq now pat 0 typ s hs]
-  have hlen := view_length s
-  obtain ⟨g, rfl⟩ : ∃ g, fuel = g + 1 + 1 := ⟨fuel - 2, by omega⟩
-  have : scanPure (view s) now 0 pat ((0 : Nat) : Int) typ = (1, []) := by
-    rw [scanPure_lim (view s) now pat typ (by rw [hlen, h1]; unfold I63; omega) 0 0 (by unfold I63; omega) (by omega)
-      (by rw [hlen]; omega)]
-    simp [kept, hlen, h1, startOf]
-  simp only [Int.natCast_zero] at this
-  rw [iterateFrom_next _ (g + 1) () 0 () 1 [] (by simp only [pstep, this]) (by omega)]
-  have h := iter_final (view s) now pat typ 0 g
-  rw [hlen, h1] at h
-  simp only [Int.natCast_one] at h
-  rw [h]
-  simp
-
 /-! ## single calls -/
 
-/-- everything a call (any cursor, any count, any state) reports is the name of an eligible record -/
-theorem goPure_sound (now : Int) (pat : Bytes) (typ : Nat) (keyLen : Int) :
+/-- everything a call (any cursor, any count, any view) reports is the name of a kept entry -/
+theorem goPure_sound (now : Int) (pat : Bytes) (typ : Nat) :
     ∀ (ents : List VEnt) (cursor iter count : Int) (acc : List Bytes) (x : Bytes),
-      x ∈ (goPure now pat typ keyLen ents cursor iter count acc).2 →
+      x ∈ (goPure now pat typ ents cursor iter count acc).2 →
       x ∈ acc ∨ ∃ e ∈ ents, e.1 = x ∧ keep now pat typ e = true := by
   intro ents
   induction ents with
@@ -227,15 +211,13 @@ theorem goPure_sound (now : Int) (pat : Bytes) (typ : Nat) (keyLen : Int) :
     · split at hx
       · simp at hx; exact Or.inl hx
       · split at hx
-        · simp at hx; exact Or.inl hx
-        · split at hx
-          · rename_i hk
-            rcases ih _ _ _ _ _ hx with h | h
-            · rcases List.mem_cons.mp h with rfl | h
-              · exact Or.inr ⟨e, List.mem_cons_self, rfl, hk⟩
-              · exact Or.inl h
-            · exact lift (Or.inr h)
-          · exact lift (ih _ _ _ _ _ hx)
+        · rename_i hk
+          rcases ih _ _ _ _ _ hx with h | h
+          · rcases List.mem_cons.mp h with rfl | h
+            · exact Or.inr ⟨e, List.mem_cons_self, rfl, hk⟩
+            · exact Or.inl h
+          · exact lift (Or.inr h)
+        · exact lift (ih _ _ _ _ _ hx)
 
 theorem scanPure_sound (v : List VEnt) (now cursor : Int) (pat : Bytes) (count : Int) (typ : Nat) (x : Bytes)
     (hx : x ∈ (scanPure v now cursor pat count typ).2) : ∃ e ∈ v, e.1 = x ∧ keep now pat typ e = true := by
@@ -245,13 +227,13 @@ theorem scanPure_sound (v : List VEnt) (now cursor : Int) (pat : Bytes) (count :
   · simp at hx
   · split at hx
     · simp at hx
-    · rcases goPure_sound now pat typ _ v cursor 0 count [] x hx with h | h
+    · rcases goPure_sound now pat typ v cursor 0 count [] x hx with h | h
       · simp at h
       · exact h
 
 theorem scan_sound (s : MState) (now cursor : Int) (pat : Bytes) (count : Int) (typ : Nat) (x : Bytes)
     (hx : x ∈ (scanStep now pat count typ s cursor).2.2) :
-    ∃ m, (x, m) ∈ s.index ∧ Eligible now pat typ (x, m) = true := by
+    ∃ m, (x, m) ∈ s.index ∧ Eligible s now pat typ (x, m) = true := by
   rw [scanStep_out] at hx
   obtain ⟨e, he, rfl, hk⟩ := scanPure_sound _ _ _ _ _ _ _ hx
   simp only [view, viewOf, List.mem_map] at he
@@ -259,11 +241,64 @@ theorem scan_sound (s : MState) (now cursor : Int) (pat : Bytes) (count : Int) (
   exact ⟨m, hmem, by rw [← keep_proj]; exact hk⟩
 
 /-- the eligible names of a proper index are pairwise different -/
-theorem eligibleNames_nodup (now : Int) (pat : Bytes) (typ : Nat) (idx : AList Meta) (hs : AList.Sorted idx) :
-    (eligibleNames now pat typ idx).Nodup := by
-  have hsub : (eligibleNames now pat typ idx).Sublist (AList.keys idx) := by
+theorem eligibleNames_nodup (s : MState) (now : Int) (pat : Bytes) (typ : Nat) (idx : AList Meta) (hs : AList.Sorted idx) :
+    (eligibleNames s now pat typ idx).Nodup := by
+  have hsub : (eligibleNames s now pat typ idx).Sublist (AList.keys idx) := by
     unfold eligibleNames AList.keys
     exact List.Sublist.map _ List.filter_sublist
   exact hsub.nodup (keys_nodup idx hs)
+
+/-! ## stores that differ only in which values are in memory -/
+
+/-- forget the in-memory value of a record -/
+def forgetValue (e : Bytes × Meta) : Bytes × Meta := (e.1, { e.2 with value := none })
+
+/-- "differ only in hot/cold-ness": same index once every in-memory value is forgotten -/
+def HotColdVariant (s t : MState) : Prop := s.index.map forgetValue = t.index.map forgetValue
+
+/-- a record without cached type has no value in memory (`setValue` sets both) -/
+def Coherent (s : MState) : Prop := ∀ e ∈ s.index, e.2.vtype = 0 → e.2.value = none
+
+theorem map_congr_of_map_eq {α β γ : Type} (f : α → β) (g g' : α → γ) : ∀ (l1 l2 : List α),
+    l1.map f = l2.map f → (∀ a ∈ l1, ∀ b ∈ l2, f a = f b → g a = g' b) → l1.map g = l2.map g' := by
+  intro l1
+  induction l1 with
+  | nil => intro l2 h _; cases l2 with | nil => rfl | cons b r => simp at h
+  | cons a r ih =>
+    intro l2 h hp
+    cases l2 with
+    | nil => simp at h
+    | cons b r2 =>
+      simp only [List.map_cons, List.cons.injEq] at h ⊢
+      exact ⟨hp a List.mem_cons_self b List.mem_cons_self h.1,
+        ih r2 h.2 (fun a' ha b' hb => hp a' (List.mem_cons_of_mem _ ha) b' (List.mem_cons_of_mem _ hb))⟩
+
+/-- hot/cold variants over the same backend present the same view to every SCAN -/
+theorem view_eq_of_hotCold (s t : MState) (h : HotColdVariant s t) (hd : s.disk = t.disk) (hp : s.pebble = t.pebble)
+    (cs : Coherent s) (ct : Coherent t) (typ : Nat) : view s typ = view t typ := by
+  unfold view viewOf
+  apply map_congr_of_map_eq forgetValue (proj s typ) (proj t typ) s.index t.index h
+  intro a ha b hb hab
+  have h1 : a.1 = b.1 := by have := congrArg (fun e => e.1) hab; exact this
+  have hexp : a.2.exp = b.2.exp := by have := congrArg (fun e => e.2.exp) hab; exact this
+  have hvt : a.2.vtype = b.2.vtype := by have := congrArg (fun e => e.2.vtype) hab; exact this
+  have het : etype s typ a = etype t typ b := by
+    unfold etype
+    by_cases hc : typ ≠ 0 ∧ a.2.vtype = 0
+    · have va : a.2.value = none := cs a ha hc.2
+      have vb : b.2.value = none := ct b hb (by rw [← hvt]; exact hc.2)
+      have hl : Store.loadValue s a.1 a.2 = Store.loadValue t b.1 b.2 := by
+        simp only [Store.loadValue, Store.diskGet, hd, hp, h1, hexp]
+      rw [if_pos ⟨hc.1, hc.2, by rw [va]; rfl⟩, if_pos ⟨hc.1, by rw [← hvt]; exact hc.2, by rw [vb]; rfl⟩, hl, hvt]
+    · have hc' : ¬ (typ ≠ 0 ∧ a.2.vtype = 0 ∧ a.2.value.isNone = true) := fun x => hc ⟨x.1, x.2.1⟩
+      have hc'' : ¬ (typ ≠ 0 ∧ b.2.vtype = 0 ∧ b.2.value.isNone = true) := fun x => hc ⟨x.1, by rw [hvt]; exact x.2.1⟩
+      rw [if_neg hc', if_neg hc'', hvt]
+  simp only [proj, h1, hexp, het]
+
+theorem hotCold_sorted {s t : MState} (h : HotColdVariant s t) : AList.Sorted s.index ↔ AList.Sorted t.index := by
+  have hk : ∀ (l : AList Meta), AList.Sorted l ↔ (l.map forgetValue).Pairwise KeyLt := by
+    intro l; rw [sorted_iff_pairwise, List.pairwise_map]; exact Iff.rfl
+  unfold HotColdVariant at h
+  rw [hk, hk, h]
 
 end NodisVerif.Proofs.C19Quiescent
